@@ -118,4 +118,28 @@ PROPERTY_META = {
         "reachable states); clear; from_bits/to_bits inverse; into_two_posits / into_three_posits = round(s), round(s - p1), round(s - p1 - p2) with "
         "exact subtractions, over all 2^32 / 2^128 states (Q32 split: thorough); Kani.",
    note=_KANI_NOTE + " 'Reachable states' is over-approximated by all non-NaR states.", assumptions=[]),
+ "C16": dict(level="proof",
+   text="Totality obligations (no postcondition): for every public function of P8E0/P16E1/P32E2 and Q8E0/Q16E1/Q32E2 that is not a todo!() stub, "
+        "called with fully symbolic arguments, Kani discharges its generated checks -- arithmetic and shift overflow, index bounds, division by "
+        "zero, unwrap, reachable panics -- and the unwinding assertion at the word width (termination of every scan loop); leaf preconditions woven "
+        "as kani::requires are asserted at every call site. No overflow obligation failing for any input means the overflow-checked and the "
+        "optimised build execute the same operations on the same values, hence identical bits.",
+   note=_KANI_NOTE + " Not under contract here: P32E2 sleef elementary functions (quire-fused kernels; C15), P16 elementary functions (covered by "
+        "the C11 obligations in the thorough tier), generic PxE1/PxE2 (C13/C14), linalg, simba/approx glue. clamp(min > max) is a known finding (D9).",
+   assumptions=["build-profile independence is inferred from the absence of overflow/panic obligations; the two profiles are not compared bit for bit by the verifier",
+                "todo!() stubs are recognised from the source (grep) and excluded"]),
+ "C17": dict(level="proof",
+   text="Forwarder contracts: every operator trait, op-assign form, num_traits impl (Zero, One, Signed, Float, FloatConst, Bounded, FromPrimitive, "
+        "ToPrimitive, NumCast), Quire/AssociatedQuire method, tuple/array quire spelling and type alias is proved equal to the corresponding inherent "
+        "operation for every input, with the heavy inherent method replaced by an argument-order-sensitive tag stub (caller checked against the "
+        "callee's interface, not its body); cheap targets are compared directly.",
+   note=_KANI_NOTE + " Tag stubs are hand-written kani::stub replacements (variant B of the weave). Num::from_str_radix is not covered (std string parsing).",
+   assumptions=["Num::from_str_radix forwards to f64::from_str_radix (std, not modelled)"]),
+ "C19": dict(level="proof",
+   text="Contract on P16E1::sub_one (requires x < 2^18; ensures real and 0 <= p < 1) and on the three Distribution::sample impls with a symbolic RngCore "
+        "(every call returns an arbitrary word = all RNG streams). P8E0 runs through the real rand 0.8 code unconditionally; for P16E1/P32E2 the "
+        "streams are restricted to those whose draws pass rand's sample_single acceptance test at once (bounds the rejection loop; the returned value "
+        "depends on the accepted draw only), and the body is additionally proved for every value gen_range may return.",
+   note=_KANI_NOTE + " rand 0.8.5 as pinned in Cargo.lock; assumption: gen_range returns a value in [low, high) computed from the accepted draw only.",
+   assumptions=["rand::Rng::gen_range(low..high) returns low <= v < high (its rejection loop is cut after the first accepted draw)"]),
 }
